@@ -41,7 +41,7 @@ UserWarn   == \E ln \in OfKind("uwarn") : AddLine(ln)
 UserErr    == \E ln \in OfKind("uerr") : AddLine(ln)
 UserFatal  == \E ln \in OfKind("ufatal") : AddLine(ln)
 FwdLine    == \E ln \in OfKind("fwd") \cup OfKind("undef") : AddLine(ln)
-JumpLine   == \E ln \in OfKind("tjmp") \cup OfKind("pjmp") : AddLine(ln)
+JumpLine   == \E ln \in OfKind("tjmp") \cup OfKind("pjmp") \cup OfKind("bjmp") \cup OfKind("bpage") \cup OfKind("shrink") : AddLine(ln)
 ErrBurst   == \E ln \in OfKind("burstE") : AddLine(ln)
 WarnBurst  == \E ln \in OfKind("burstW") \cup OfKind("burstU") : AddLine(ln)
 ExpectLine == \E ln \in OfKind("expect") \cup OfKind("endexpect") : AddLine(ln)
@@ -105,6 +105,16 @@ OptsTwo  == {[BaseOpt EXCEPT !.maxerr = m] : m \in {0, 1}}
 \* the jump-error discard protocol: with / without -Y, -maxerrors off / 2, -Werror
 OptsJump == {[BaseOpt EXCEPT !.throw = y, !.maxerr = m, !.werror = w] : y \in BOOLEAN, m \in {0, 2}, w \in BOOLEAN}
 KindsJump == {S("ok"), S("err"), S("uwarn"), S("uerr"), S("fwd"), S("undef"), S("tjmp"), S("pjmp")}
+\* EXPECT blocks around jump errors: the jump classes under their wrappers (bare / announced / announced with the other
+\* number of the family), the backward and the page variant that raise their error in every pass, and the pure mover
+\* `shrink`; undef = a genuine error that first shows in pass 2; x -Y x -maxerrors off / 2
+OptsJumpX == {[BaseOpt EXCEPT !.throw = y, !.maxerr = m] : y \in BOOLEAN, m \in {0, 2}}
+KindsJumpX == {S("ok"), S("fwd"), S("undef"), S("tjmp"), S("pjmp"), S("shrink"), Ln("tjmp", 0, "", "exp")}
+              \cup {Ln(k, 0, "", t) : k \in {"bjmp", "bpage"}, t \in {"", "exp", "expx"}}
+\* what an EXPECT block announces x the filters of WrXErrorPos behind the EXPECT test (-w, -Werror, -maxerrors):
+\* blocks for the error 1200 and for the warning 290 around lines of class warn / err
+OptsExpN == {[BaseOpt EXCEPT !.werror = w, !.suppw = s, !.maxerr = m] : w \in BOOLEAN, s \in BOOLEAN, m \in {0, 2}}
+KindsExpN == {S("ok"), S("warn"), S("err"), S("fwd"), S("expect"), Ln("expect", 0, "warn", ""), S("endexpect")}
 OptsReport == {[BaseOpt EXCEPT !.werror = w, !.q = q, !.E = e, !.x = x, !.gnu = g, !.n = nn, !.L = l] :
                  w \in BOOLEAN, q \in BOOLEAN, e \in {"stderr", "stdout", "file", "log"}, x \in 0..2, g \in BOOLEAN,
                  nn \in BOOLEAN, l \in BOOLEAN}
